@@ -44,6 +44,8 @@ import (
 	"net"
 	"net/rpc"
 	"os"
+	"os/exec"
+	"runtime"
 	"strconv"
 	"strings"
 	"sync"
@@ -397,6 +399,7 @@ type caseRun struct {
 	hmu      sync.Mutex
 	hnotes   []string
 	addrUsed bool // direct mode: a detector was given the monitor's address
+	monGid   string
 }
 
 func (c *caseRun) emit(r rec) { c.lines = append(c.lines, r) }
@@ -409,6 +412,42 @@ func (c *caseRun) harness(s string) {
 type abandon struct{ why, detail string }
 
 func (c *caseRun) giveUp(why, detail string) { panic(abandon{why, detail}) }
+
+// goid returns the id of the calling goroutine ("goroutine 12 [running]:" -> "12").
+func goid() string {
+	buf := make([]byte, 64)
+	buf = buf[:runtime.Stack(buf, false)]
+	f := strings.Fields(string(buf))
+	if len(f) > 1 {
+		return f[1]
+	}
+	return ""
+}
+
+// waitAccepting waits until the monitor's accept loop is parked inside Accept. On the pinned tree
+// Monitor.Close races with a loop that is between two Accept calls (it resets m.listener, the loop
+// then calls Accept on a nil listener and the process dies; findings/C19.md, closerace mode). The
+// lifecycle cases must not die of that, so Close is only called on a quiescent accept loop.
+func (c *caseRun) waitAccepting() {
+	if c.monGid == "" {
+		return
+	}
+	hdr := "goroutine " + c.monGid + " ["
+	buf := make([]byte, 1<<22)
+	for i := 0; i < 2000; i++ {
+		n := runtime.Stack(buf, true)
+		st := string(buf[:n])
+		k := strings.Index(st, hdr)
+		if k < 0 || n == len(buf) {
+			return
+		}
+		rest := st[k+len(hdr):]
+		if strings.HasPrefix(rest, "IO wait") {
+			return
+		}
+		time.Sleep(time.Millisecond)
+	}
+}
 
 func freePort() int {
 	l, err := net.Listen("tcp", "127.0.0.1:0")
@@ -513,7 +552,9 @@ func (c *caseRun) monUp() {
 		}
 		c.monDone = make(chan error, 1)
 		mon, done := c.mon, c.monDone
-		go func() { done <- mon.ListenAndServe() }()
+		gidCh := make(chan string, 1)
+		go func() { gidCh <- goid(); done <- mon.ListenAndServe() }()
+		c.monGid = <-gidCh
 		ok := false
 		deadline := time.Now().Add(watchdog)
 		for time.Now().Before(deadline) {
@@ -555,6 +596,7 @@ func (c *caseRun) monClose() string {
 	}
 	c.lsnUp = false
 	ret := "nil"
+	c.waitAccepting()
 	if err := c.mon.Close(); err != nil {
 		ret = "err"
 	}
@@ -757,7 +799,14 @@ func (c *caseRun) gatedCmd(cmd string) {
 		c.emit(obsRec(rec{"e": "timeout", "d": n}, h, c))
 	case "read":
 		d := c.detOf(n)
+		// a read is only judged if no timer of the parked iteration can have fired before it returned
+		if time.Since(d.pollLB) >= d.T {
+			c.giveUp("disturbed", fmt.Sprintf("detector %d parked for %v, timeout %v: a timer may have fired by itself", n, time.Since(d.pollLB), d.T))
+		}
 		v, us, msg := c.read(d)
+		if time.Since(d.pollLB) >= d.T || len(d.events) > 0 {
+			c.giveUp("disturbed", fmt.Sprintf("detector %d: a timer may have fired during a read", n))
+		}
 		c.emit(rec{"e": "read", "d": n, "v": v, "us": us, "pm": us / int64(c.cs.IV), "msg": msg})
 	default:
 		c.giveUp("harness", "unknown command "+cmd)
@@ -810,6 +859,7 @@ func (c *caseRun) teardown() {
 		}
 	}
 	if c.lsnUp {
+		c.waitAccepting()
 		c.mon.Close()
 	}
 	for _, d := range c.dets {
@@ -930,6 +980,95 @@ func (c *caseRun) direct() {
 	}
 }
 
+// ------------------------------------------------------------------ closerace mode
+
+// closeRaceChild: Monitor.Close while connections keep arriving. Survival prints "survived".
+func closeRaceChild(rounds int) {
+	for r := 0; r < rounds; r++ {
+		addr := "127.0.0.1:" + strconv.Itoa(freePort())
+		mon := resources.NewMonitor(addr)
+		done := make(chan error, 1)
+		go func() { done <- mon.ListenAndServe() }()
+		up := false
+		for i := 0; i < 5000 && !up; i++ {
+			if conn, err := net.DialTimeout("tcp", addr, time.Second); err == nil {
+				conn.Close()
+				up = true
+			} else {
+				time.Sleep(time.Millisecond)
+			}
+		}
+		if !up {
+			continue
+		}
+		stop := make(chan struct{})
+		var wg sync.WaitGroup
+		for k := 0; k < 8; k++ {
+			wg.Add(1)
+			go func() {
+				defer wg.Done()
+				for {
+					select {
+					case <-stop:
+						return
+					default:
+					}
+					if conn, err := net.DialTimeout("tcp", addr, time.Second); err == nil {
+						conn.Close()
+					}
+				}
+			}()
+		}
+		time.Sleep(time.Duration(1+r%5) * time.Millisecond)
+		mon.Close()
+		select {
+		case <-done:
+		case <-time.After(watchdog):
+			fmt.Println("stuck")
+			os.Exit(3)
+		}
+		close(stop)
+		wg.Wait()
+	}
+	fmt.Println("survived")
+}
+
+// closeRace runs the child and records what happened to it as a case.
+func closeRace(out string, rounds int) {
+	cmd := exec.Command(os.Args[0], "-mode", "closerace-child", "-rounds", strconv.Itoa(rounds))
+	b, err := cmd.CombinedOutput()
+	txt := string(b)
+	r := rec{"e": "closerace", "rounds": rounds, "crashed": false, "where": "", "what": ""}
+	why := "complete"
+	switch {
+	case err == nil && strings.Contains(txt, "survived"):
+	case strings.Contains(txt, "resources.(*Monitor)") && (strings.Contains(txt, "SIGSEGV") || strings.Contains(txt, "panic:")):
+		r["crashed"] = true
+		r["where"] = "Monitor"
+		lines := strings.Split(txt, "\n")
+		if len(lines) > 14 {
+			lines = lines[:14]
+		}
+		r["what"] = strings.Join(lines, " | ")
+	default:
+		why = "harness"
+		if len(txt) > 600 {
+			txt = txt[:600]
+		}
+		r["what"] = txt
+	}
+	f, ferr := os.Create(out)
+	if ferr != nil {
+		panic(ferr)
+	}
+	for _, x := range []rec{{"e": "case", "id": 0, "mode": "closerace", "nd": 1, "na": 1, "watch": []int{1}, "iv": 1, "T": 1, "cmds": []string{}}, r,
+		{"e": "endcase", "why": why, "detail": r["what"], "notes": ""}} {
+		b, _ := json.Marshal(x)
+		f.Write(append(b, '\n'))
+	}
+	f.Close()
+}
+
 // ------------------------------------------------------------------ main
 
 func main() {
@@ -937,10 +1076,29 @@ func main() {
 	outPath := flag.String("out", "", "ndjson output")
 	par := flag.Int("par", 8, "cases run concurrently")
 	wd := flag.Int("watchdog", 40, "watchdog, seconds")
+	mode := flag.String("mode", "cases", "cases | closerace | closerace-child")
+	rounds := flag.Int("rounds", 300, "closerace: rounds")
 	flag.Parse()
 	watchdog = time.Duration(*wd) * time.Second
 	log.SetOutput(io.Discard) // fd.go logs every state change; nothing is derived from it
+	if *mode == "closerace-child" {
+		closeRaceChild(*rounds)
+		return
+	}
+	if *mode == "closerace" {
+		closeRace(*outPath, *rounds)
+		return
+	}
 	installResolver()
+	// warm up the resolver (it reads its configuration on first use)
+	warm := &det{events: make(chan *hold, 1)}
+	warm.auto.Store(true)
+	registry.Store("warmup.c19.invalid.", warm)
+	for i := 0; i < 3; i++ {
+		if conn, err := net.DialTimeout("tcp", "warmup.c19.invalid.:1", 5*time.Second); err == nil {
+			conn.Close()
+		}
+	}
 
 	fh, err := os.Open(*casesPath)
 	if err != nil {
